@@ -26,7 +26,7 @@ func (C11) Rule() string {
 		"interleaved by the seeded scheduler at every storage call (uniform or sticky choice policy, randomised per run); families: " +
 		"kv (POST/DELETE/GET on 1-2 keys of a child version whose parent holds older values; whole history incl. later quiescent reads checked for linearizability with porcupine against a per-key register model, " +
 		"invoke/return = scheduler event numbers), dag (concurrent new-version/branch/commit/merge on one parent and new versions in different repos; afterwards the C07 graph invariants, at most one child per branch, " +
-		"every acknowledged child present). non-trivial = at least one decision among >=2 parked goroutines; distinct = distinct decision-sequence hash"
+		"every acknowledged child present), labels (bodies of several supervoxels; batches of 2-3 commuting label operations issued together - cleaves of ONE body with disjoint supervoxels, merges of distinct bodies into ONE target, a cleave and a merge on disjoint bodies; every acknowledged one must be fully applied: afterwards every read endpoint is compared with the C08 reference model). non-trivial = at least one decision among >=2 parked goroutines; distinct = distinct decision-sequence hash"
 }
 func (C11) Assumptions() []string {
 	return append([]string{"porcupine timeouts (Unknown) are counted as inconclusive, never reported"}, commonAssumptions...)
@@ -36,9 +36,29 @@ func (C11) Budget(tier string) (int, time.Duration) {
 }
 
 func (C11) Generate(r *rand.Rand, tier string, idx int) *drv.Scenario {
-	fam := []string{"kv", "kv", "dag"}[r.IntN(3)]
+	fam := []string{"kv", "kv", "dag", "labels"}[r.IntN(4)]
 	sc := &drv.Scenario{Family: fam, Knobs: baseKnobs(r)}
-	sc.Knobs.Bias = r.IntN(2)
+	sc.Knobs.Bias = r.IntN(3)
+	if fam == "labels" {
+		// bodies of several supervoxels, then batches of commuting label operations on one body / one target
+		seed := func() int64 { return int64(r.Uint64N(1 << 40)) }
+		g := []int{2, 1 + r.IntN(2), 1}
+		steps := []drv.Op{{Op: "lrepo", P: [][]int{{16}, g, {0, 0, 0}}}, {Op: "ingest", V: 0, N: seed()}, {Op: "ingest", V: 0, N: seed()}, {Op: "ingest", V: 0, N: seed()}}
+		for i := 0; i < 2+r.IntN(3); i++ {
+			steps = append(steps, drv.Op{Op: "lmerge", V: 0, N: seed()})
+		}
+		sc.Fixed = len(steps)
+		for b := 0; b < 3+r.IntN(4); b++ {
+			steps = append(steps, drv.Op{Op: "parlabel", V: 0, N: seed()})
+			if r.IntN(3) == 0 {
+				steps = append(steps, drv.Op{Op: "lmerge", V: 0, N: seed()})
+			}
+			steps = append(steps, drv.Op{Op: "lcheck", V: 0})
+		}
+		steps = append(steps, drv.Op{Op: "lcheckall"})
+		sc.Steps = steps
+		return sc
+	}
 	var steps []drv.Op
 	valCtr := 0
 	nv := func() string { valCtr++; return fmt.Sprintf("v%d", valCtr) }
@@ -186,6 +206,15 @@ var kvRegisterModel = porcupine.Model{
 func (c C11) Execute(sc *drv.Scenario, w *drv.World) (*drv.Violation, error) {
 	if _, err := w.Start(); err != nil {
 		return nil, err
+	}
+	if sc.Family == "labels" {
+		lx := NewLabelExec(w, "C11")
+		v, err := runLabelSteps(sc, w, lx, nil)
+		if err != nil || v != nil {
+			return v, err
+		}
+		w.Discard()
+		return nil, nil
 	}
 	x := NewKVExec(w)
 	var hist []porcupine.Operation
